@@ -734,3 +734,13 @@ Proof.
     + destruct k0; try (now left). destruct Hin as [<-|Hin]; [right; exists d0; now left|now left].
     + right. exists d'. now right.
 Qed.
+
+(* an operand that is a symbolic link, not dereferenced (the iterator follows a link given as the root only under
+   --dereference: `follow_root_links(config.dereference)`, repair of a round-5 defect): the walk consists of re-creating
+   that one link, or of the no-clobber refusal — nothing is looked at, created or written below it, whatever the link
+   designates *)
+Theorem link_operand_is_one_action : forall cfg keep dexists text res,
+  w_deref cfg = false -> keep [] (tree_is_dir (TLink text res)) = true ->
+  walk cfg keep dexists [] (TLink text res) =
+    if w_no_clobber cfg && dexists [] then ([WErr 1 []], false) else ([WLink [] text], true).
+Proof. intros cfg keep dexists text res Hd Hk. cbn [walk]. rewrite Hk, Hd. reflexivity. Qed.
